@@ -207,3 +207,20 @@ def _logger_no_effect(ex, args, kwargs, lineno):
 
 for _lvl in ("debug", "info", "warning", "error", "exception", "critical", "log"):
     external(f"Logger.{_lvl}")(_logger_no_effect)
+
+
+# ---- tree-sitter Node.child_by_field_name(name): an uninterpreted function of (node, field name); the result is null or a child
+# of the node (trusted). Counter-models that depend on it cannot be rebuilt natively (FakeNode has no fields): such a
+# refutation is reported without a replayed input.
+from contracts._nodes import TSNode as _TSNode  # noqa: E402
+
+ts_field = uf("ts_field", [_TSNode, Str], _TSNode, concrete=lambda n, f: n.child_by_field_name(f))
+
+
+@external("TSNode.child_by_field_name")
+def _ts_child_by_field_name(ex, args, kwargs, lineno):
+    """node.child_by_field_name(f) -> ts_field(node, f): null, or a node whose parent is `node` (uninterpreted, trusted)."""
+    r = ex.call_uf("ts_field", [args[0], args[1]])
+    ex.ufs_used.add("tree: child_by_field_name(n, f) is None or a child of n")
+    ex.assume(z3.Or(r.t == _TSNode.null, _TSNode.attr_func("parent")(r.t) == args[0].t))
+    return r
